@@ -223,6 +223,12 @@ def gen_cases(rng, ctx):
     for g in range(4):
         groups = [["a.example", "b.example"], ["r.example"], ["p.example"], ["s.example"]]
         hosts_case(groups, (g + 1, 0, 1), "hosts:certificate-file-without-certificate-%d" % g)
+    # a certificate file with a good certificate and a damaged section behind it (not base64; cut short as by an interrupted renewal):
+    # the chain cannot be loaded as written
+    for g in range(4):
+        for k in (2, 3):
+            groups = [["a.example", "b.example"], ["r.example"], ["p.example"], ["s.example"]]
+            hosts_case(groups, (g + 1, 0, k), "hosts:certificate-chain-with-a-damaged-section-%d" % g)
     # alternative SNIs: claimed by two main hosts; equal to a host name of each group (before and after the claiming host)
     base = [["a.example", "b.example"], ["r.example"], ["p.example"], ["s.example"]]
     hosts_case(base, (0, 0), "hosts:alternative-sni", alts=[(0, "x.example"), (1, "y.example"), (1, "z.example")])
@@ -291,7 +297,7 @@ def judge(case, impl, model, spec, ctx):
         er = case.meta["expect_refused"]
         exp = 1 if er else 0
         bad = case.meta["bad"]
-        what = "groups (main, reverse proxy, ping, speedtest) = %s, alternative SNIs (main host index, name) = %s, unloadable (group, index, kind: 1 = the certificate file holds the key only, the key file is good) = %s" % (
+        what = "groups (main, reverse proxy, ping, speedtest) = %s, alternative SNIs (main host index, name) = %s, unloadable (group, index, kind: 1 = the certificate file holds the key only, 2 / 3 = a good certificate followed by a damaged section, the key file is good) = %s" % (
             case.meta["groups"], case.meta.get("alts", []), bad)
         if er is not None and (iv[0] != exp or iv[1] != exp):
             out.append(("violation", "TLS hosts %s: builder refused = %d, Core::new refused = %d, expected %d (duplicate host names%s, "
